@@ -42,6 +42,9 @@ func runC14(c *an.Ctx) {
 	passThrough(c, "R14n", "cacheproxy.GetDefaults/GetVars are plain pass-throughs to the wrapped service", []string{"GetDefaults", "GetVars"}, "a map kept by the proxy is handed to several environments, which write into it: values set by one environment show up in the others, at the rank of the configuration store")
 	r14o(c)
 	c.As(map[string]string{"R04j": "R14m"}, func() { r04j(c) })
+	// round 8
+	r14p(c)
+	r14q(c)
 }
 
 // condsDependingOn: the control conditions of b (outside loop control) that are computed from v (or, when v is a
